@@ -46,6 +46,7 @@ class CheckFitInput(Contract):
             {"rank": 1, "ncomp": 2, "weights": "match", "unpack": True, "same": False},
             {"rank": 1, "ncomp": 2, "weights": "one_for_two", "unpack": True, "same": True},
             {"rank": 1, "ncomp": 1, "weights": "wrong_size", "unpack": True, "same": True},
+            {"rank": 2, "ncomp": 1, "weights": "wrong_size", "unpack": True, "same": True},
         ]
         return out
 
@@ -89,7 +90,14 @@ class CheckFitInput(Contract):
             if len(weights) != len(data):
                 conds.append(True)
             else:
-                conds.append(or_(*[w.size != d.size for w in weights for d in data]))
+                from pyvc import known
+
+                if known.active("F8"):
+                    # known finding F8 (C20): only the SIZES are compared, so equal-size weights of a different
+                    # shape are accepted and raveled; the carve-out is exactly that input class
+                    conds.append(or_(*[w.size != d.size for w in weights for d in data]))
+                else:
+                    conds.append(or_(*[not_(shapes_equal(w, d)) for w in weights for d in data]))
         return [(ValueError, or_(*conds))]
 
     def havoc(self, a):
